@@ -70,7 +70,15 @@ def containment(ctx):
                        and any(isinstance(x, ast.Name) and x.id == 'result' for x in n.targets)]
             shape = False
             for a in assigns:
-                v = a.value
+                v = resolved(a.value, h.node) if not any(len(local_assigns(h.node, x.id)) > 1 for x in ast.walk(a.value) if isinstance(x, ast.Name)) else a.value
+                if isinstance(v, ast.Tuple) and len(v.elts) == 3 and all(isinstance(e, ast.Name) for e in v.elts[:2]):
+                    # `action = ERRORPREFIX + msg[0]; specifier = msg[1]; result = (action, specifier, report)` bound in the same handler
+                    def last_in_handler(name, hd=hd):
+                        defs = [n.value for st in hd.body for n in walk_local(st) if isinstance(n, ast.Assign) and any(isinstance(x, ast.Name) and x.id == name for x in n.targets)]
+                        return defs[-1] if defs else None
+                    e0v, e1v = last_in_handler(v.elts[0].id), last_in_handler(v.elts[1].id)
+                    if e0v is not None and e1v is not None:
+                        v = ast.Tuple(elts=[e0v, e1v, v.elts[2]], ctx=ast.Load())
                 if isinstance(v, ast.Tuple) and len(v.elts) == 3:
                     e0, e1 = src(v.elts[0]), src(v.elts[1])
                     if 'ERRORPREFIX' in e0 and 'msg[0]' in e0 and e1 == 'msg[1]':
@@ -709,6 +717,10 @@ def deframer_and_loop_polarity(ctx):
                 other = 'F' if none_side == 'T' else 'T'
                 defs = [v for v, st, how in local_assigns(h.node, l) if v is not None] if l.isidentifier() else []
                 if any(isinstance(v, ast.Call) and call_attr(v) == 'receive' for v in defs) and ing:
+                    outer = [a for a in ancestors(loop) if isinstance(a, ast.While)]
+                    heads = list(cfgh.ids(loop.test)) + [i for a in outer for i in cfgh.ids(a.test)]
+                    if not (ing & cfgh.reach([t.id], avoid=[t.id] + heads)):
+                        continue        # a test behind the ingest (of the same round): it decides something else
                     ok = ing <= cfgh.reach([t.id], labels={other}, avoid=[t.id]) and not (ing & cfgh.reach([t.id], labels={none_side}, avoid=[t.id] + list(cfgh.ids(loop.test))))
                     ctx.check(ok, f'{h.qualname}:data is ingested when there is data', t.ast, 'ingest on the not-None side',
                               f'`{src(t.ast)}`: ingest() runs only when receive() returned nothing', h)
@@ -743,3 +755,49 @@ def undecodable_line_is_reported_not_dropped(ctx):
                       'the handler of next_message does not end in `raise DecodeError(..., raw_msg=<line>)`: an undecodable request line is dropped without reply', f)
     if not n:
         raise AnchorMissing('no exception handler in any next_message')
+
+
+@rule('C07.R3d', min_instances=1)
+def a_position_is_not_tested_by_its_truth(ctx):
+    """de-framing: where the end of a line is located by position (`data.find(EOL)`), position 0 - an empty line in front of the
+    buffer - is a line like any other: "no line yet" is asked by comparison (`< 0`, `== -1`, `is None` of a helper result),
+    never by the truth value of the position.  Taken for "nothing there", the empty line is never consumed: it gets no reply
+    and every later request of the connection stays in the buffer behind it"""
+    m = ctx.m
+    n = 0
+    for q, fi in sorted(m.functions.items()):
+        if fi.module.name != IFACE and not fi.module.name.startswith(IFACE + '.'):
+            continue
+        positions = set()
+        for a in [x for x in body_walk(fi.node) if isinstance(x, ast.Assign) and len(x.targets) == 1 and isinstance(x.targets[0], ast.Name)]:
+            v = a.value
+            finds = isinstance(v, ast.Call) and call_attr(v) in ('find', 'index', 'rfind')
+            if isinstance(v, ast.Call) and isinstance(v.func, ast.Name):
+                h = m.functions.get(f'{fi.module.name}.{v.func.id}')
+                if h is not None and any(isinstance(r.value, ast.Call) and call_attr(r.value) in ('find', 'index', 'rfind') or
+                                         (isinstance(r.value, ast.Name) and any(isinstance(d, ast.Call) and call_attr(d) in ('find', 'index', 'rfind')
+                                                                                for d, st, how in local_assigns(h.node, r.value.id) if d is not None))
+                                         for r in body_walk(h.node) if isinstance(r, ast.Return) and r.value is not None):
+                    finds = True
+            if finds:
+                positions.add(a.targets[0].id)
+        if not positions:
+            continue
+        for _ in range(3):      # locals a position is handed on to (`end = pos` on one branch, `end = None` on the other)
+            positions |= {x.targets[0].id for x in body_walk(fi.node) if isinstance(x, ast.Assign) and len(x.targets) == 1 and isinstance(x.targets[0], ast.Name)
+                          and isinstance(x.value, ast.Name) and x.value.id in positions}
+        ctx.analysed(fi)
+        cfg = CFG(fi.node, m, fi.module)
+        for t in cfg.nodes:
+            if t.kind != 'test' or isinstance(t.ast, ast.stmt):
+                continue
+            for atom, tv in facts_on_side(t.ast, True) + facts_on_side(t.ast, False):
+                if isinstance(atom, ast.Name) and atom.id in positions:
+                    n += 1
+                    ctx.bad(f'{fi.qualname}:the position of the line end is compared, not truth tested', t.ast,
+                            f'`{src(t.ast)}` takes position 0 (an empty line at the front of the buffer, `\\n` alone) for "no complete line": that line is never consumed, '
+                            'it gets no reply and every later request on the connection stays unanswered behind it', fi)
+        n += 1
+        ctx.ok(f'{fi.qualname}:positions used', fi.node, f'{sorted(positions)} compared / used as index', fi)
+    if not n:
+        ctx.ok('lines are cut by split / partition', None, 'no position arithmetic in the de-framer')
